@@ -1,4 +1,4 @@
-from spec import H, KaniUnit, Property
+from spec import H, KaniUnit, Property, VerusUnit
 
 VK = "mithril-stm/src/signature_scheme/bls_multi_signature/verification_key.rs"
 RE = "mithril-stm/src/protocol/key_registration/registration_entry.rs"
@@ -17,7 +17,12 @@ PROP = Property(
             H("c06_entry_orders_are_stake_then_key", "unwind", "RegistrationEntry / ClosedRegistrationEntry / MerkleTreeConcatenationLeaf: cmp == stake.cmp.then(key encoding cmp); PartialOrd agrees; antisymmetric",
               ["impl Ord for RegistrationEntry", "impl Ord for ClosedRegistrationEntry", "impl Ord for MerkleTreeConcatenationLeaf"], bound="96-byte loop fully unrolled", replay="none", timeout=900),
         ])],
+    verus=[VerusUnit("signer_builder", "verus/C06/signer_builder.tmpl.rs",
+                     "extracted text of mithril-common SignerBuilder::new (the function through which signer, aggregator and client derive the aggregate key): Ok ==> exactly one registration request per listed signer, in order, "
+                     "each carrying THAT signer's own party id / opcert / key / key signature / KES evolutions, against the stake distribution derived from the same list, closed with the given protocol parameters",
+                     ["SignerBuilder::new"])],
     assumptions=[
+        "SignerBuilder::new: KeyRegWrapper (init / register / close) as an abstract registration recording its stake map and accepted requests (register's own contract: C07); the map/collect building the stake distribution is a contract fn; .with_context removed; strip_cfg future_snark",
         "BlsVerificationKey::to_bytes (blst compress, FFI) is a contract stub: a fixed 96-byte encoding per key; blst point equality coincides with equality of that encoding (canonical compressed form) - assumed",
         "std BTreeSet iteration order is determined by Ord (assumed contract on the dependency): with the proved total order the iteration order, hence leaf order, signer slots and Merkle root, is a function of the set of (key, stake) pairs",
         "order independence of KeyRegistration::register_by_entry + close_registration as executed code (BTreeSet/HashSet of blst keys) is not run symbolically; JSON/hex round trips and 'distinct sets => distinct keys' (Merkle collision resistance) are not decided",
